@@ -140,6 +140,30 @@ def gen_cross(rng):
     return text, meta
 
 
+DST_DAYS = [("America/New_York", (2015, 3, 8)), ("America/New_York", (2021, 3, 14)), ("America/New_York", (2015, 11, 1)),
+            ("Europe/Berlin", (2015, 3, 29)), ("Europe/Berlin", (2022, 3, 27)), ("Europe/Berlin", (2015, 10, 25)),
+            ("Australia/Sydney", (2015, 10, 4)), ("Australia/Sydney", (2016, 4, 3)), ("America/Sao_Paulo", (2015, 10, 18)),
+            ("Europe/London", (2019, 3, 31)), ("Pacific/Auckland", (2018, 9, 30)), ("America/St_Johns", (2016, 3, 13))]
+
+
+def gen_dst(rng):
+    """sub-hourly wall-clock candidates across a DST change: several of them fall into the hour that does not exist (or
+    exists twice) on that day, where local order and UTC order differ"""
+    import datetime as D
+    zone, (y, m, d) = rng.choice(DST_DAYS)
+    day = D.date(y, m, d) - D.timedelta(days=rng.choice([0, 0, 1]))
+    dtstart = D.datetime.combine(day, D.time(rng.choice([0, 0, 1, 22, 23]), rng.choice([0, 10, 30]), 0))
+    rule = rng.choice(["FREQ=MINUTELY;INTERVAL=%d" % rng.choice([10, 15, 20, 30]),
+                       "FREQ=HOURLY;BYMINUTE=%s" % rng.choice(["0,20,40", "0,30", "15,45", "0,10,20,30,40,50"]),
+                       "FREQ=DAILY;BYHOUR=0,1,2,3;BYMINUTE=0,30", "FREQ=SECONDLY;INTERVAL=%d" % rng.choice([600, 900, 1200]),
+                       "FREQ=DAILY;BYHOUR=1,2;BYMINUTE=0,15,30,45"])
+    r = {"freq": rule.split(";")[0].split("=")[1]}
+    text = "\n".join(["BEGIN:VCALENDAR", "VERSION:2.0", "BEGIN:VEVENT", "UID:ev@verif", "SUMMARY:x",
+                      "DTSTART;TZID=%s:%s" % (zone, dtstart.strftime("%Y%m%dT%H%M%S")), "RRULE:" + rule, "END:VEVENT", "END:VCALENDAR", ""])
+    meta = {"dtstart": dtstart, "is_date": False, "tzid": zone, "dtscale": None, "rules": [rule], "rule_objs": [r], "untils": [None]}
+    return text, meta
+
+
 def worker(args):
     root, seed, tier, wid, nw, ncases = args
     part = Part()
@@ -148,9 +172,13 @@ def worker(args):
     rng = rng_for(seed, PROP, wid)
     try:
         for _ in range(ncases):
-            if rng.random() < 0.08:
+            fam = rng.random()
+            if fam < 0.08:
                 text, meta = gen_cross(rng)
                 part.count("cross_period_rules")
+            elif fam < 0.13:
+                text, meta = gen_dst(rng)
+                part.count("dst_change_rules")
             else:
                 text, meta = evgen.gen_event(rng, odd=True)
             npop = rng.choice([70, 200, 600]) if tier == "quick" else rng.choice([200, 600, 2000, 5000])
